@@ -430,7 +430,9 @@ func c15GenLedger(r *Rand, i int, tier string) []string {
 		s.someDeposit()
 	}
 	for k := 0; k < steps; k++ {
-		switch r.Intn(20) {
+		switch r.Intn(24) {
+		case 20, 21:
+			s.odd()
 		case 0, 1, 2:
 			s.someDeposit()
 		case 3, 4:
@@ -438,24 +440,7 @@ func c15GenLedger(r *Rand, i int, tier string) []string {
 		case 5:
 			s.spend("submit", true, 0, 0, true)
 		case 6:
-			// claim of a finalized submit (building what it needs: XIN funds, a finalized submission)
-			if len(s.liveOuts(1)) == 0 {
-				t := s.deposit(1, c15Units(int64(r.Range(1, 50))), c15DepOpt{validate: true})
-				s.snapshot([]int{t.id}, 1+r.Intn(c15Nodes), s.fits([]int{t.id}), 0)
-			}
-			sub := 0
-			for _, id := range s.finalIDs() {
-				if s.txs[id].kind == "submit" {
-					sub = id
-				}
-			}
-			if sub == 0 {
-				if t := s.spend("submit", true, 0, 0, true); t != nil && t.good {
-					s.snapshot([]int{t.id}, 1+r.Intn(c15Nodes), s.fits([]int{t.id}), 0)
-					sub = t.id
-				}
-			}
-			if sub != 0 {
+			if sub := s.claimPrereq(); sub != 0 {
 				s.spend("claim", true, 0, sub, true)
 			}
 		case 7:
@@ -551,6 +536,151 @@ func c15GenLedger(r *Rand, i int, tier string) []string {
 		}
 	}
 	return s.lines
+}
+
+// what a withdrawal claim needs: XIN funds and a finalized submission; returns the submission
+func (s *c15Sim) claimPrereq() int {
+	r := s.r
+	if len(s.liveOuts(1)) == 0 {
+		t := s.deposit(1, c15Units(int64(r.Range(1, 50))), c15DepOpt{validate: true})
+		s.snapshot([]int{t.id}, 1+r.Intn(c15Nodes), s.fits([]int{t.id}), 0)
+	}
+	sub := 0
+	for _, id := range s.finalIDs() {
+		if s.txs[id].kind == "submit" {
+			sub = id
+		}
+	}
+	if sub == 0 {
+		if t := s.spend("submit", true, 0, 0, true); t != nil && t.good {
+			s.snapshot([]int{t.id}, 1+r.Intn(c15Nodes), s.fits([]int{t.id}), 0)
+			sub = t.id
+		}
+	}
+	return sub
+}
+
+// n positive parts of total (nil when total < n)
+func (s *c15Sim) splitExact(total *big.Int, n int) []*big.Int {
+	if total.Cmp(big.NewInt(int64(n))) < 0 {
+		return nil
+	}
+	var parts []*big.Int
+	rest := new(big.Int).Set(total)
+	for i := 0; i < n-1; i++ {
+		// leave at least one unit for every later part
+		room := new(big.Int).Sub(rest, big.NewInt(int64(n-1-i)))
+		p := new(big.Int).Div(new(big.Int).Mul(room, big.NewInt(int64(1+s.r.Intn(6)))), big.NewInt(10))
+		if p.Sign() <= 0 {
+			p = big.NewInt(1)
+		}
+		parts = append(parts, p)
+		rest = new(big.Int).Sub(rest, p)
+	}
+	return append(parts, rest)
+}
+
+// finalize through the node's own rule: `snapv` writes the snapshot only when the real validation
+// accepted every member (a rejected one is skipped on both sides)
+func (s *c15Sim) snapshotValidated(members []int, node int) {
+	var ids []string
+	for _, id := range members {
+		ids = append(ids, fmt.Sprint(id))
+	}
+	sid, topo := s.nextSnap, s.nextTopo
+	s.nextSnap++
+	s.nextTopo++
+	s.nextTs++
+	s.emit("snapv %d %d 1 %d %d %d %s", sid, node, s.nextTs, topo, s.r.Intn(c15Nodes+1), strings.Join(ids, ","))
+	s.emit("dump")
+	s.emit("supply")
+}
+
+// a transaction of any class with three or more outputs and an output type that does not belong at
+// some position >= 1 (value conserving, properly signed): validation has to refuse it; if the real
+// validation accepts, it is finalized and the supply equations are observed
+func (s *c15Sim) odd() {
+	r := s.r
+	kind := Pick(r, []string{"claim", "claim", "submit", "transfer", "deposit", "mint"})
+	nOut := r.Range(3, 5)
+	pos := r.Range(1, nOut-1)
+	oddT := Pick(r, []string{"w", "w", "c", "x", "z"})
+	ref := 0
+	var ins []*c15SimOut
+	var inl []string
+	var total *big.Int
+	asset := 0
+	switch kind {
+	case "claim":
+		if ref = s.claimPrereq(); ref == 0 {
+			return
+		}
+		asset = 1
+	case "deposit":
+		asset = Pick(r, []int{1, 4, 5})
+		total = c15Units(int64(r.Range(1, 40)))
+		inl = []string{fmt.Sprintf("d:%d:%d:%d:%s", s.nextDep, c15Info(asset)[0], c15Info(asset)[1], total)}
+		s.nextDep++
+	case "mint":
+		asset = 1
+		total = c15Units(int64(r.Range(1, 40)))
+		inl = []string{fmt.Sprintf("m:%d:%s", s.nextBatch, total)}
+		s.nextBatch++
+	}
+	if total == nil {
+		cands := s.liveOuts(asset)
+		if len(cands) == 0 {
+			return
+		}
+		first := Pick(r, cands)
+		asset = first.asset
+		ins = []*c15SimOut{first}
+		total = new(big.Int).Set(first.amount)
+		inl = []string{fmt.Sprintf("u:%d:%d", first.tx, first.idx)}
+	}
+	parts := s.splitExact(total, nOut)
+	if kind == "claim" {
+		fee := c15ClaimFee()
+		if total.Cmp(new(big.Int).Add(fee, big.NewInt(int64(nOut)))) < 0 {
+			return
+		}
+		parts = append([]*big.Int{fee}, s.splitExact(new(big.Int).Sub(total, fee), nOut-1)...)
+	}
+	if parts == nil {
+		return
+	}
+	t := s.newTx(kind, asset)
+	t.good = false
+	t.ins = ins
+	acct := 1 + r.Intn(4)
+	var outl []string
+	for i, p := range parts {
+		o := &c15SimOut{tx: t.id, idx: i, asset: asset, amount: p, key: s.key(acct, i)}
+		typ := "s"
+		if i == 0 && kind == "submit" {
+			typ = "w"
+		}
+		if i == 0 && kind == "claim" {
+			typ = "c"
+		}
+		if i == pos {
+			typ = oddT
+		}
+		if typ == "w" || typ == "c" {
+			o.key = 0
+		}
+		t.outs = append(t.outs, o)
+		outl = append(outl, s.outLine(o, typ))
+	}
+	s.nextSeed++
+	refs := "-"
+	if ref != 0 {
+		refs = fmt.Sprint(ref)
+	}
+	s.emit("tx %d %d 1 1 %d %s %s %s", t.id, asset, s.nonce(), strings.Join(inl, ","), strings.Join(outl, ","), refs)
+	s.emit("validate %d 0", t.id)
+	s.emit("admitv %d 0", t.id)
+	s.snapshotValidated([]int{t.id}, 1+r.Intn(c15Nodes))
 }
 
 // a batch with a member that fails inside finalization, at a random position
